@@ -147,10 +147,16 @@ func mergeBuild(c any, o any, path tree.Path) (any, error) {
 			}
 		case map[string]any:
 			return v
+		case nil:
+			return map[string]any{}
 		}
 		return nil
 	}
-	return mergeMappings(toBuild(c), toBuild(o), path)
+	build, other := toBuild(c), toBuild(o)
+	if build == nil || other == nil {
+		return nil, fmt.Errorf("cannot override %s", path)
+	}
+	return mergeMappings(build, other, path)
 }
 
 func mergeDependsOn(c any, o any, path tree.Path) (any, error) {
